@@ -39,7 +39,8 @@ m = {
     'engines': [{'name': 'sa', 'path': 'sa/', 'serves_properties': [c['property_id'] for c in checks],
                  'kind_free_text': 'repository-specific static analysis over Python ast / Cython parse trees: resolver, statement CFG, '
                                    'forward dataflow over finite state sets, three-valued guard domain, finite-domain abstract interpretation '
-                                   'of encoders/decoders, constant folding, registry extraction'}],
+                                   'of encoders/decoders, constant folding, registry extraction; every module is first brought into a canonical form (helper inlining, shape '
+                                   'normalisation, bounded search over behaviour-preserving rewrites towards the reference spelling) so that rules see equivalent programs alike'}],
     'checks': checks,
     'notes': 'Static analysis only (see DESIGN.md). ./check <id> exits 0 (held / only listed known findings), 1 (VIOLATION), 2 (ANALYSIS-ERROR). '
              'Known findings: known_findings.json.',
